@@ -405,7 +405,11 @@ fn partial_tokens_to_tokens<NumericTypes: EvalexprNumericTypes>(
                 cutoff = 1;
                 if let Ok(number) = parse_dec_or_hex::<NumericTypes>(&literal) {
                     Some(Token::Int(number))
-                } else if let Ok(number) = literal.parse::<NumericTypes::Float>() {
+                } else if let Some(number) = literal
+                    .starts_with(|c: char| c.is_ascii_digit() || c == '.')
+                    .then(|| literal.parse::<NumericTypes::Float>().ok())
+                    .flatten()
+                {
                     Some(Token::Float(number))
                 } else if let Ok(boolean) = literal.parse::<bool>() {
                     Some(Token::Boolean(boolean))
